@@ -88,8 +88,13 @@ def holder_problem(obj, name):
         why = flags_problem(getattr(obj, a), getattr(obj, b), f"{name}.{a}")
         if why:
             return why
-    if len(obj.flags) != len(obj.flag_lines):
-        return f"{name}: len(flags) != len(flag_lines)"
+    # The combined lists are paired position by position as well.
+    why = flags_problem(obj.flags, obj.flag_lines, f"{name}.flags")
+    if why:
+        return why
+    if sorted(obj.flags) != sorted(obj.w_flags + obj.e_flags):
+        return (f"{name}: .flags {obj.flags} is not the warning and error "
+                f"flags together")
     return None
 
 
